@@ -19,6 +19,12 @@ spec fn wfTok(t *token.Token) bool = t != nil && t.Location() != nil && t.Span()
 // the token was cut out of a window that began at or after `from` and the lexer stands right behind it
 spec fn cutFrom(l *Lexer, t *token.Token, from int) bool = wfTok(t) && from <= tokStart(t) && tokStart(t) <= tokEnd(t) + 1 && tokEnd(t) + 1 == l.cursor && l.start == l.cursor
 
+// Position bookkeeping has seven owners; no other function of the package may assign these
+// fields (nor take their address), so their contracts below describe every way a position can
+// change: one character forward is one column forward, a new line resets the column, a token's
+// start position is the window's start position.
+owned Lexer.cursor, Lexer.column, Lexer.line, Lexer.start, Lexer.startColumn, Lexer.startLine by advanceChar, backupChar, backupChars, skipByte, skipToken, incrementLine, tokenWithValue for C04
+
 func (*Lexer).hasMoreTokens
   props C04 C03
   requires l != nil
@@ -31,6 +37,7 @@ func (*Lexer).nextChar
   assigns nothing
   ensures l.cursor < len(l.source) ==> 1 <= ret1 && ret1 <= 4 && l.cursor + ret1 <= len(l.source)
   ensures l.cursor == len(l.source) ==> ret1 == 0
+  ensures l.cursor < len(l.source) && ret0 < 128 ==> ret1 == 1
 
 func (*Lexer).nextNextChar
   props C04 C03
@@ -53,9 +60,10 @@ func (*Lexer).advanceChar
   requires wfLex(l)
   assigns l.cursor, l.column
   ensures wf: wfLex(l) && l.start == old(l.start)
-  ensures moved: ret1 ==> old(l.cursor) < l.cursor
+  ensures moved: ret1 ==> old(l.cursor) < l.cursor && l.column == wrapS64(old(l.column) + 1)
   ensures stuck: !ret1 ==> l.cursor == old(l.cursor) && l.cursor == len(l.source) && l.column == old(l.column)
   ensures step: l.cursor <= old(l.cursor) + 4
+  ensures ascii: ret1 && ret0 < 128 ==> l.cursor == old(l.cursor) + 1
   ensures iff: ret1 <==> old(l.cursor) < len(l.source)
 
 func (*Lexer).advanceChars
@@ -72,13 +80,13 @@ func (*Lexer).backupChar
   props C04 C03
   requires wfLex(l) && l.cursor > l.start
   assigns l.cursor, l.column
-  ensures wfLex(l) && l.cursor == old(l.cursor) - 1 && l.start == old(l.start)
+  ensures wfLex(l) && l.cursor == old(l.cursor) - 1 && l.start == old(l.start) && l.column == wrapS64(old(l.column) - 1)
 
 func (*Lexer).backupChars
   props C04 C03
   requires wfLex(l) && n >= 0 && l.cursor - n >= l.start
   assigns l.cursor, l.column
-  ensures wfLex(l) && l.cursor == old(l.cursor) - n && l.start == old(l.start)
+  ensures wfLex(l) && l.cursor == old(l.cursor) - n && l.start == old(l.start) && l.column == wrapS64(old(l.column) - n)
 
 func (*Lexer).matchChar
   props C04 C03
@@ -144,23 +152,25 @@ func (*Lexer).acceptNextChar
   requires wfLex(l)
   assigns nothing
 
+// skipping "the current byte" is only right when the consumed lexeme IS one byte (a one-byte
+// character): start and its column then advance by one each
 func (*Lexer).skipByte
   props C04 C03
-  requires wfLex(l) && l.start < l.cursor
+  requires wfLex(l) && l.start + 1 == l.cursor
   assigns l.start, l.startColumn
-  ensures wfLex(l) && l.start == old(l.start) + 1 && l.cursor == old(l.cursor)
+  ensures wfLex(l) && l.start == old(l.start) + 1 && l.start == l.cursor && l.cursor == old(l.cursor) && l.startColumn == wrapS64(old(l.startColumn) + 1)
 
 func (*Lexer).skipToken
   props C04 C03
   requires wfLex(l)
   assigns l.start, l.startColumn, l.startLine
-  ensures wfLex(l) && l.start == l.cursor && l.cursor == old(l.cursor)
+  ensures wfLex(l) && l.start == l.cursor && l.cursor == old(l.cursor) && l.startColumn == l.column && l.startLine == l.line
 
 func (*Lexer).incrementLine
   props C04 C03
   requires l != nil
   assigns l.line, l.column
-  ensures l.column == 1
+  ensures l.line == wrapS64(old(l.line) + 1) && l.column == 1
 
 func (*Lexer).swallowNewLines
   props C04 C03
@@ -200,6 +210,8 @@ func (*Lexer).tokenWithValue
   ensures cut: cutFrom(l, ret, old(l.start)) && tokStart(ret) == old(l.start) && l.cursor == old(l.cursor)
   ensures fresh: fresh(ret)
   ensures lines: ret.Span().StartPos.Line == old(l.startLine) && ret.Span().StartPos.Column == old(l.startColumn)
+  ensures endpos: tokEnd(ret) != tokStart(ret) ==> ret.Span().EndPos.Line == old(l.line) && ret.Span().EndPos.Column == wrapS64(old(l.column) - 1)
+  ensures restart: l.startColumn == l.column && l.startLine == l.line
   ensures wf: wfLex(l)
 
 func (*Lexer).token
@@ -235,7 +247,7 @@ func Colorize
   assert before WriteString#2: same(between, source[previousEnd:tokStart(tok)])
   assert before Sprint#1: same(lexeme, source[tokStart(tok):tokEnd(tok)+1]) && tokEnd(tok) + 1 == l.start
   loop 1
-    invariant l != nil && wfLex(l) && same(l.source, source) && 0 <= previousEnd && previousEnd == l.start
+    invariant l != nil && wfLex(l) && same(l.source, source) && 0 <= previousEnd && previousEnd == l.start && l.start == l.cursor
 
 func ColorizeEmbellishedText
   props C04
@@ -243,10 +255,10 @@ func ColorizeEmbellishedText
   assert before WriteString#2: same(between, source[previousEnd:tokStart(tok)])
   assert before Sprint#1: same(lexeme, source[tokStart(tok):tokEnd(tok)+1]) && tokEnd(tok) + 1 == l.start
   loop 1
-    invariant l != nil && wfLex(l) && same(l.source, source) && 0 <= previousEnd && previousEnd == l.start
+    invariant l != nil && wfLex(l) && same(l.source, source) && 0 <= previousEnd && previousEnd == l.start && l.start == l.cursor
 
 func Lex
   props C04
   loop 1
-    invariant l != nil && wfLex(l)
+    invariant l != nil && wfLex(l) && l.start == l.cursor
 @*/
